@@ -43,6 +43,10 @@ def plan(tier, seed):
     for i in range(k):
         specs.append({'kind': 'window', 'count': 10 if tier == 'quick' else 40, 'index': i})
     specs.append({'kind': 'tail'})
+    for d in ((0, 1, 8) if tier == 'quick' else (-2, -1, 0, 1, 2, 3, 4, 5, 6, 7, 8, 9, 10)):
+        specs.append({'kind': 'area_edge', 'over': d})
+    for i in range(2 if tier == 'quick' else 8):
+        specs.append({'kind': 'highbyte', 'count': 400 if tier == 'quick' else 2500})
     specs.append({'kind': 'nul', 'count': 150 if tier == 'quick' else 1500})
     specs.append({'kind': 'fill'})
     for i in range(2 if tier == 'quick' else 8):
@@ -358,6 +362,74 @@ def run_shard(spec, ctx):
                 ctx.feature('stream_fills_code_area' if slack == 0 else 'stream_ends_%d_before_area_end' % slack)
                 check_consumer(ctx, t, items, compress, 'fill-' + last)
         ctx.sample({'fill': 'streams of exactly 0x3d00-8 bytes (and 1, 2 less) ending in an escape, a back-reference, a literal'})
+    elif kind == 'area_edge':
+        # the writer's packaging at the edge of the code area: a text whose stream ends `over` bytes past (or before) the area's last
+        # byte is either packed whole (area of exactly 0x3d00 bytes that decodes to the text, also when read back from a cart image by
+        # picotool's reader) or refused
+        import io
+        import random
+        from .. import carts
+        from pico8.game.formatter.p8png import P8PNGFormatter
+        d = spec['over']
+        t = carts.edge_text(random.Random(d * 31 + 7), rc.CODE_SIZE - 8 + d)
+        case = {'kind': 'area_edge', 'over': d, 'text': t}
+        ctx.case(t, nontrivial=True)
+        if rc.c_size(rc.c_greedy(t)) != rc.CODE_SIZE - 8 + d:
+            ctx.inconclusive_because('edge text generator: greedy stream has %d bytes, wanted %d' % (rc.c_size(rc.c_greedy(t)), rc.CODE_SIZE - 8 + d))
+            return
+        try:
+            area = p8png.get_bytes_from_code(t, 8)
+        except p8png.InvalidP8PNGError:
+            ctx.feature('edge_text_refused')
+            ctx.monitor('edge_refusals')
+            return
+        except Exception as e:
+            ctx.violation('get_bytes_from_code raised %r for a text whose stream ends %+d bytes from the end of the code area' % (e, d), case)
+            return
+        ctx.feature('edge_text_packed')
+        ctx.monitor('edge_areas_checked')
+        if len(area) != rc.CODE_SIZE:
+            ctx.violation('get_bytes_from_code returned a code area of %d bytes (the area has %d) for a stream ending %+d bytes from its end' % (
+                len(area), rc.CODE_SIZE, d), case)
+            return
+        got = rc.decode_code_area(bytes(area), 8)
+        if got != t:
+            ctx.violation('code area packed for a stream ending %+d bytes from the end of the area decodes (reference) to %d bytes, the text has %d' % (
+                d, len(got), len(t)), case)
+            return
+        if bytes(area[-1:]) != b'\x00':
+            ctx.feature('edge_area_used_to_its_last_byte')
+        regions, _ = carts.random_regions(rng, 'zero')
+        try:
+            g = P8PNGFormatter.from_file(io.BytesIO(rc.write_p8png(regions, bytes(area), 8)))
+            back = b''.join(g.lua.to_lines())
+        except Exception as e:
+            ctx.violation('reading a cart whose code area is used up to %+d bytes from its end raised %r' % (d, e), case)
+            return
+        ctx.monitor('edge_carts_read_back')
+        if back not in (t, t + b'\n'):
+            ctx.violation('a cart whose code area is used up to %+d bytes from its end reads back as %d bytes of code, the text has %d' % (
+                d, len(back), len(t)), case)
+        ctx.sample({'area_edge': 'comment of %d characters whose greedy stream has %d bytes' % (len(t), rc.CODE_SIZE - 8 + d)})
+    elif kind == 'highbyte':
+        # texts over small alphabets of 8-bit characters whose codes differ in one bit (bit 0, bit 7) or sit next to each other: whatever
+        # a match finder keys its search on, different characters must stay different
+        for i in range(spec['count']):
+            base = rng.randrange(256)
+            alpha = {base, base ^ 1, base ^ 0x80, base ^ 0x81, (base + 1) & 255, rng.randrange(256), rng.choice(b',-.ab\n ')}
+            alpha = bytes(sorted(a for a in alpha if a != 0))
+            if i % 4 == 3:
+                alpha = bytes(range(1, 256))
+            n = rng.choice((6, 12, 40, 200, rng.randint(3, 1500)))
+            t = bytes(rng.choice(alpha) for _ in range(n))
+            if not in_domain(t):
+                continue
+            ctx.feature('highbyte_texts')
+            if any(c >= 128 for c in t):
+                ctx.feature('texts_with_characters_above_127')
+            check_producer(ctx, t, 'highbyte', compress, p8png)
+            if i == 0:
+                ctx.sample({'highbyte_text': t[:40]})
     elif kind == 'tail':
         block = b'abcdefghijklmnopq'  # 17 bytes
         for k in range(0, 21):
@@ -519,6 +591,9 @@ def run_shard(spec, ctx):
 def replay(case, ctx):
     from pico8.game import compress
     from pico8.game.formatter import p8png
+    if case['kind'] == 'area_edge':
+        run_shard({'kind': 'area_edge', 'over': case['over']}, ctx)
+        return
     if case['kind'] == 'producer':
         check_producer(ctx, case['text'], 'replay', compress, p8png)
     else:
@@ -559,6 +634,11 @@ def gates(m, tier):
                                                                             f.get('resaved_after_in_place_reparse', 0)))
     if f.get('optimized_interpreter_shards', 0) < 3:
         missed.append('shards under python -O: %d' % f.get('optimized_interpreter_shards', 0))
+    if f.get('edge_text_packed', 0) < 1 or f.get('edge_text_refused', 0) < 1 or f.get('edge_area_used_to_its_last_byte', 0) < 1 or mon.get('edge_carts_read_back', 0) < 1:
+        missed.append('texts at the edge of the code area: packed %d (area used to its last byte %d, read back from a cart %d), refused %d' % (
+            f.get('edge_text_packed', 0), f.get('edge_area_used_to_its_last_byte', 0), mon.get('edge_carts_read_back', 0), f.get('edge_text_refused', 0)))
+    if f.get('texts_with_characters_above_127', 0) < 300:
+        missed.append('texts with characters above 127: %d' % f.get('texts_with_characters_above_127', 0))
     if mon.get('writer_packaging_compared', 0) < 50:
         missed.append('writer packaging path compared %d times' % mon.get('writer_packaging_compared', 0))
     return missed
